@@ -542,6 +542,16 @@ func runEngineProperty(t *testing.T, prop string) {
 		if o.Res == "err panic" {
 			specBad = "engine panicked"
 		}
+		if specBad == "" && c.Engine == "par" && kind[0] == "ok" && len(o.Consumed) < len(c.Script) {
+			// the parallel engine listens for timeout + (number of probes) × delay; a successful run that is
+			// over before that with replies still to come has stopped reading too early: what arrives
+			// later inside the listening window is not reflected in the result
+			maxTimeout := c.Timeout + c.Delay*time.Duration(c.Max-c.Min+1)
+			if o.Elapsed < maxTimeout {
+				specBad = fmt.Sprintf("the parallel run returned after %s, before its listening time %s was over, with %d scripted deliveries still unread (e.g. %s)",
+					o.Elapsed, maxTimeout, len(c.Script)-len(o.Consumed), c.Script[len(o.Consumed)].token())
+			}
+		}
 		if specBad != "" {
 			rep.Violate(hx.Violation{Kind: "spec", What: specBad, Sig: map[string]string{"engine": c.Engine, "result": kind[0]}, Replay: caseJSON(c, o)})
 			continue
